@@ -23,6 +23,11 @@ import (
 	"golang.org/x/tools/go/ssa"
 )
 
+// formMismatch prefixes the detail of an obligation that failed because the iterator is not written in one of the
+// forms the induction recognises (as opposed to: recognised, and wrong). Only such failures hand over to the bounded
+// evaluation; a recognised form that violates the induction stays a violation.
+const formMismatch = "not in a recognised inductive form: "
+
 // canon renders an abstract value in a canonical form (commutative operands
 // sorted, comparisons oriented, constants folded where K1 did not).
 func canon(v AV) string {
@@ -102,7 +107,7 @@ func (s *seqRT) loadIter(rule, ctorName, argName string) *iterInfo {
 	outs := in.Run(nil, fn, []AV{Sym{Name: argName}}, nil)
 	s.account(in)
 	if len(outs) != 1 || outs[0].Panicked || len(outs[0].Ret) != 1 {
-		c.bad(rule, "seq."+ctorName+" constructor", s.w.FnPos(fn), "constructor is not a single straight-line construction")
+		c.bad(rule, "seq."+ctorName+" constructor", s.w.FnPos(fn), "not in a recognised inductive form: constructor is not a single straight-line construction")
 		return nil
 	}
 	d, ok := outs[0].Ret[0].(Dyn)
@@ -270,7 +275,7 @@ func (s *seqRT) ruleIterIndex(ctor, argName string, boundOf func(operand AV) str
 	curOuts, _ := s.checkPure(info, rule, ctor)
 	// which field is the key?
 	if len(curOuts) != 1 || len(curOuts[0].Ret) != 1 {
-		c.bad(rule, "seq."+ctor+" Current()", s.w.FnPos(info.current), "Current() of an index iterator must be a single straight-line path")
+		c.bad(rule, "seq."+ctor+" Current()", s.w.FnPos(info.current), "not in a recognised inductive form: Current() of an index iterator must be a single straight-line path")
 		return
 	}
 	keyV := pairField(curOuts[0].Ret[0], "Key")
@@ -309,7 +314,7 @@ func (s *seqRT) ruleIterIndex(ctor, argName string, boundOf func(operand AV) str
 		return
 	}
 	if len(outs) != 1 || outs[0].Panicked || len(outs[0].Ret) != 1 {
-		c.bad(rule, "seq."+ctor+" MoveNext step", pos, fmt.Sprintf("MoveNext on a symbolic state has %d paths; expected one straight-line update or the guarded form (stop / advance)", len(outs)))
+		c.bad(rule, "seq."+ctor+" MoveNext step", pos, fmt.Sprintf("not in a recognised inductive form: MoveNext on a symbolic state has %d paths; expected one straight-line update or the guarded form (stop / advance)", len(outs)))
 		return
 	}
 	after := outs[0].St.Obj(r)
@@ -458,12 +463,6 @@ func (s *seqRT) ruleIterString() {
 	pos := s.w.FnPos(info.moveNext)
 	s.checkPure(info, rule, ctor)
 	baseObj := info.base.Obj(info.obj)
-	opField := ""
-	for _, n := range info.fields {
-		if isSymNamed(ff(baseObj)[n], "str") {
-			opField = n
-		}
-	}
 	baseF := ff(baseObj)
 	st, r := info.symbolicObj()
 	outs := s.runMethod(st, info.moveNext, r)
@@ -514,8 +513,36 @@ func (s *seqRT) ruleIterString() {
 		}
 	}
 	subst0 := func(v AV) AV { return normStr(substSome(v, constF)) }
+	// keyIs: the delivered key equals the offset of the remaining input — directly, or because the iterator keeps
+	// the offset in a field of its own next to the remaining input and "field = offset" is an inductive invariant:
+	// it holds for the constructed state and every advancing path changes both sides by the same amount.
+	keyIs := func(kv, wantK AV) bool {
+		if sameLin(kv, wantK) {
+			return true
+		}
+		D := Expr{Op: "-", Args: []AV{kv, wantK}}
+		if !sameLin(normStr(substFields(substSome(D, constF), baseF)), mkInt(0)) {
+			return false
+		}
+		for _, adv := range advs {
+			if !sameLin(subst0(substSome(D, ff(adv.St.Obj(r)))), subst0(D)) {
+				return false
+			}
+		}
+		return true
+	}
 	var remB, remO AV // the remaining input, as base[off:] over the pre-state
 	decodePaths, fastPaths := 0, 0
+	// the decoder's argument on a decode path: the remaining input as the iterator represents it
+	var rawArg AV
+	for _, adv := range advs {
+		for _, e := range adv.St.Events {
+			if e.Kind == "call" && e.Fn != nil && e.Fn.Object() != nil && e.Fn.Object().Pkg() != nil && e.Fn.Object().Pkg().Path() == "unicode/utf8" &&
+				(e.Fn.Name() == "DecodeRuneInString" || e.Fn.Name() == "DecodeRune") && len(e.Args) > 0 && rawArg == nil {
+				rawArg = e.Args[0]
+			}
+		}
+	}
 	for _, adv := range advs {
 		var calls []*Event
 		for i, e := range adv.St.Events {
@@ -532,39 +559,45 @@ func (s *seqRT) ruleIterString() {
 		k := canon(pairField(cur[0].Ret[0], "Key"))
 		v := canon(pairField(cur[0].Ret[0], "Val"))
 		if len(calls) == 0 {
-			if opField == "" {
-				c.bad(rule, "seq."+ctor+" fast path", pos, "an advancing path without a decoder call on an iterator that does not keep the string in a field: not a recognised single-byte fast path", adv.St.TraceStrings()...)
+			// (b) single-byte fast path, stated over the remaining input R(σ) = B[O:] (the decoder's argument on the
+			// decode paths): the path condition establishes R(σ)[0] < utf8.RuneSelf, R(σ') = R(σ)[1:], Key is the
+			// offset of R(σ) in the operand, Val the byte R(σ)[0].
+			if rawArg == nil {
+				c.bad(rule, "seq."+ctor+" decode", pos, "no advancing path decodes a UTF-8 sequence")
 				return
 			}
-			// (b) fast path: find the position field as the one that advanced by 1
-			fpf := ""
-			for _, n := range info.fields {
-				if canon(ff(after)[n]) == canon(Expr{Op: "+", Args: []AV{Sym{Name: "F:" + n}, mkInt(1)}}) {
-					fpf = n
-				}
-			}
-			if fpf == "" {
-				c.bad(rule, "seq."+ctor+" fast path", pos, "an advancing path without a decoder call does not advance the position by exactly one byte", adv.St.TraceStrings()...)
+			Braw, Oraw, okRaw := suffixOf(normStr(rawArg))
+			bsym, isSym := Braw.(Sym)
+			if !okRaw || !isSym {
+				c.bad(rule, "seq."+ctor+" fast path", pos, formMismatch+"an advancing path without a decoder call, and the remaining input is not a field or a suffix of a field", adv.St.TraceStrings()...)
 				return
 			}
-			byteAt := "⟨F:" + opField + "[⟨F:" + fpf + "⟩]⟩"
+			byteAt := "⟨" + epochRe.ReplaceAllString(bsym.Name, "") + "[" + canon(Oraw) + "]⟩"
 			established := false
 			var conds []string
 			for _, cd := range adv.St.Conds {
 				cc := condCanon(cd)
 				conds = append(conds, cc)
-				// str[pos] < 128, possibly through a conversion to rune/int
+				// R(σ)[0] < 128, possibly through a conversion to rune/int
 				if strings.HasPrefix(cc, "<(") && strings.HasSuffix(cc, ",128)") && strings.Contains(cc, byteAt) && !strings.Contains(cc, "+(") {
 					established = true
 				}
 			}
 			if !established {
-				c.bad(rule, "seq."+ctor+" fast path", pos, "a path that does not call the decoder is taken without establishing that the byte at the position is below utf8.RuneSelf (a multi-byte or invalid sequence would be split into bytes): conditions "+strings.Join(conds, " ; "))
+				c.bad(rule, "seq."+ctor+" fast path", pos, "a path that does not call the decoder is taken without establishing that the first byte of the remaining input ("+byteAt+") is below utf8.RuneSelf (a multi-byte or invalid sequence would be split into bytes): conditions "+strings.Join(conds, " ; "))
 				return
 			}
+			B, O, okB := suffixOf(subst0(rawArg))
+			B1, O1, ok1 := suffixOf(subst0(substSome(rawArg, ff(after))))
+			okAdv := okB && ok1 && canon(B1) == canon(B) && sameLin(O1, Expr{Op: "+", Args: []AV{O, mkInt(1)}})
+			okKey := false
+			if okB {
+				wantK := Expr{Op: "+", Args: []AV{Expr{Op: "-", Args: []AV{Expr{Op: "len", Args: []AV{Sym{Name: "str"}}}, Expr{Op: "len", Args: []AV{B}}}}, O}}
+				okKey = keyIs(subst0(pairField(cur[0].Ret[0], "Key")), wantK)
+			}
 			okVal := strings.Contains(v, byteAt) && !strings.Contains(v, "+(")
-			c.check(k == "⟨F:"+fpf+"⟩" && okVal, rule, "seq."+ctor+" fast path", pos, "single-byte fast path: guarded by str[pos] < utf8.RuneSelf, key = pos, value = rune(str[pos]), pos' = pos+1",
-				"fast path delivers Key = "+k+", Val = "+v+"; expected the offset before the advance and the byte at it")
+			c.check(okAdv && okKey && okVal, rule, "seq."+ctor+" fast path", pos, "single-byte fast path: guarded by remaining[0] < utf8.RuneSelf, key = offset of the remaining input, value = rune(remaining[0]), remaining' = remaining[1:]",
+				fmt.Sprintf("fast path: remaining input advanced by one byte: %v; Key is the offset before the advance: %v (Key = %s); Val is the byte at it: %v (Val = %s)", okAdv, okKey, k, okVal, v))
 			fastPaths++
 			continue
 		}
@@ -610,7 +643,7 @@ func (s *seqRT) ruleIterString() {
 		// Key = len(str) - len(R(σ)) = len(str) - len(B) + O
 		wantK := Expr{Op: "+", Args: []AV{Expr{Op: "-", Args: []AV{Expr{Op: "len", Args: []AV{Sym{Name: "str"}}}, Expr{Op: "len", Args: []AV{B}}}}, O}}
 		kv := subst0(pairField(cur[0].Ret[0], "Key"))
-		c.check(sameLin(kv, wantK) && v == r0, rule, "seq."+ctor+" Current after advance", s.w.FnPos(info.current),
+		c.check(keyIs(kv, wantK) && v == r0, rule, "seq."+ctor+" Current after advance", s.w.FnPos(info.current),
 			"Key is the byte offset the rune was decoded at, Val the decoded rune",
 			"expected Key = offset of the decoded sequence ("+linString(wantK)+") and Val = "+r0+"; got Key = "+canon(kv)+", Val = "+v)
 		decodePaths++
@@ -1169,21 +1202,13 @@ func (s *seqRT) ruleIters() {
 	c.min("ITER.MAP", 3)
 	c.min("ITER.CHAN", 2)
 	c.min("ITER.PURE", 5)
+	isForm := func(o Obligation) bool { return strings.HasPrefix(o.Detail, formMismatch) }
 	c.guard("ITER.IV", func() {
 		// the two inductive forms first; an integer iterator written in neither of them is evaluated on concrete
-		// operands instead (bounded, and said so)
-		inductive := false
-		func() {
-			defer func() {
-				if r := recover(); r != nil {
-					inductive = false
-				}
-			}()
-			inductive = c.trial(func() {
-				s.ruleIterIndex("NewIntegerIter", "n", func(op AV) string { return canon(op) }, false)
-			})
-		}()
-		if !inductive {
+		// operands instead (bounded, and said so). A recognised form that fails the induction is a violation.
+		if ok, fallback := c.trialForm(func() {
+			s.ruleIterIndex("NewIntegerIter", "n", func(op AV) string { return canon(op) }, false)
+		}, isForm); !ok && fallback {
 			s.iterIntegerBounded()
 		}
 	})
@@ -1191,16 +1216,7 @@ func (s *seqRT) ruleIters() {
 		s.ruleIterIndex("NewSliceIter", "slice", func(op AV) string { return "len(" + canon(op) + ")" }, true)
 	})
 	c.guard("ITER.STR", func() {
-		inductive := false
-		func() {
-			defer func() {
-				if r := recover(); r != nil {
-					inductive = false
-				}
-			}()
-			inductive = c.trial(s.ruleIterString)
-		}()
-		if !inductive {
+		if ok, fallback := c.trialForm(s.ruleIterString, isForm); !ok && fallback {
 			s.iterStringBounded()
 		}
 	})
@@ -1422,7 +1438,7 @@ func (s *seqRT) iterStringBounded() {
 	c.fn("seq.NewStringIter")
 	pos := s.w.FnPos(fn)
 	bad := ""
-	for _, str := range []string{"", "a", "ab", "é", "aéz", "日本語", "a\xffz", "\xc3", "\xe6\x97", "x\xf0\x9f\x98\x80y", "\x80\x80a"} {
+	for _, str := range []string{"", "a", "ab", "é", "aéz", "日本語", "a\xffz", "\xc3", "\xe6\x97", "x\xf0\x9f\x98\x80y", "\x80\x80a", "\uFFFD", "a\uFFFDb", "\xed\xa0\x80", "\xc0\x80x", "\xf4\x90\x80\x80"} {
 		in := s.interp()
 		outs := in.Run(nil, fn, []AV{mkString(str)}, nil)
 		s.account(in)
@@ -1498,7 +1514,7 @@ func (s *seqRT) iterStringBounded() {
 		}
 	}
 	c.check(bad == "", rule, "seq.NewStringIter (bounded evaluation: the state is not in the inductive form the rule knows)", pos,
-		"11 constant operands (ASCII, multi-byte, truncated and invalid sequences): exactly the (byte offset, rune) pairs of Go's range, then false for good — by evaluation, not by induction", bad)
+		"16 constant operands (ASCII, multi-byte, an encoded U+FFFD, truncated, overlong, surrogate and out-of-range sequences): exactly the (byte offset, rune) pairs of Go's range, then false for good — by evaluation, not by induction", bad)
 	for _, k := range []string{"seq.NewStringIter advance", "seq.NewStringIter Current after advance", "seq.NewStringIter exhaustion", "seq.NewStringIter initial position"} {
 		c.ok(rule, k, pos, "(bounded evaluation, see above)")
 	}
